@@ -104,8 +104,10 @@ def _expression(kind, scope, dom_of):
     return " + ".join(terms)
 
 
-def _build(spec):
-    """spec -> (DCOP, same DCOP without agents, AgentDef list); public pyDcop API only"""
+def _build(spec, tables=None):
+    """spec -> (DCOP, same DCOP without agents, AgentDef list); public pyDcop API only.
+    tables: a list that receives (agent name, routes dict, hosting costs dict) - the very dict objects handed to
+    AgentDef, still held by the caller (frame obligations)"""
     from pydcop.dcop.dcop import DCOP
     from pydcop.dcop.objects import Domain, Variable, AgentDef
     from pydcop.dcop.relations import constraint_from_str, NAryMatrixRelation, NAryFunctionRelation
@@ -132,8 +134,11 @@ def _build(spec):
         kw = {}
         if a["capacity"] != _NOCAP:
             kw["capacity"] = a["capacity"]
-        agents.append(AgentDef(a["name"], default_route=spec["default_route"], routes=dict(a["routes"]),
-                               default_hosting_cost=a["dhc"], hosting_costs=dict(a["hc"]), **kw))
+        routes, hc = dict(a["routes"]), dict(a["hc"])
+        if tables is not None:
+            tables.append((a["name"], routes, hc))
+        agents.append(AgentDef(a["name"], default_route=spec["default_route"], routes=routes,
+                               default_hosting_cost=a["dhc"], hosting_costs=hc, **kw))
     out = []
     for with_agents in (True, False):
         dcop = DCOP(spec["name"], spec["objective"], domains=dict(domains), variables=dict(variables))
@@ -288,8 +293,10 @@ def _tmpdir():
     return tempfile.mkdtemp(prefix="pvc_yaml_", dir=base)
 
 
-def _read_back(env, Y, way, text, text_noagents, text_agents):
-    """load the dumped DCOP the requested way; returns the DCOP or Raised"""
+def _read_back(env, Y, way, text, text_noagents, text_agents, frame=None):
+    """load the dumped DCOP the requested way; returns the DCOP or Raised.
+    frame: a dict that receives the list / tuple of file names given to load_dcop_from_file, as it was before
+    the call ("before") and as the caller finds it after the call ("after")"""
     if way == "string":
         return env.call(Y.load_dcop, text)
     d = _tmpdir()
@@ -314,7 +321,10 @@ def _read_back(env, Y, way, text, text_noagents, text_agents):
             arg = tuple(files)
         else:
             arg = list(files)
-        return env.call(Y.load_dcop_from_file, arg)
+        r = env.call(Y.load_dcop_from_file, arg)
+        if frame is not None and isinstance(arg, (list, tuple)):
+            frame["before"], frame["after"] = list(files), list(arg)
+        return r
     finally:
         shutil.rmtree(d, ignore_errors=True)
 
@@ -413,6 +423,99 @@ def prove_equivalent(env, orig, loaded, P="yaml", extra_computations=("unknown_c
             env.prove(P + ".agents.same-hosting-cost-for-every-computation" + T, _num_eq(eh, gh), detail=lambda: (n, cpt, eh, gh))
 
 
+# ------------------------------------------------------------------ frame: what a caller observes of a DCOP
+
+def _tv(x):
+    """a value with the distinctions the round trip must keep (str / bool / None / number)"""
+    if x is None:
+        return ("none",)
+    if isinstance(x, bool):
+        return ("bool", x)
+    if isinstance(x, str):
+        return ("str", x)
+    return ("num", x)
+
+
+def _guard(f):
+    """an observation that fails is an observation (it differs from the one taken before the call)"""
+    try:
+        return f()
+    except Exception as e:  # noqa
+        return ("observation-raised", type(e).__name__, str(e)[:200])
+
+
+def _observe_agents(agents, others, comps):
+    """name -> capacity, route cost to every agent, hosting cost of every computation (asked in that order)"""
+    out = []
+    for a in agents:
+        out.append((a.name, _tv(a.extra_attr().get("capacity", _NOCAP)),
+                    tuple(a.route(o) for o in others), tuple(a.hosting_cost(c) for c in comps)))
+    return sorted(out)
+
+
+def _observe_dcop(dcop, others, comps):
+    """A DCOP as seen through the public API, by section; no object identity, no order of declaration: the
+    observation of a DCOP before a call is comparable to the one after the call *and* to the one of a DCOP
+    loaded from its dump.  `others` / `comps`: the agents / computations the agents are asked about."""
+    def constraint(c):
+        dims = sorted(c.dimensions, key=lambda v: v.name)
+        names = [v.name for v in dims]
+        return (c.name, tuple(names),
+                tuple(c(**dict(zip(names, vals))) for vals in itertools.product(*[list(v.domain.values) for v in dims])))
+    return {
+        "name-and-objective": _guard(lambda: (dcop.name, dcop.objective)),
+        "domains": _guard(lambda: sorted((n, d.name, d.type, tuple(_tv(x) for x in d.values)) for n, d in dcop.domains.items())),
+        "variables": _guard(lambda: sorted((n, v.name, v.domain.name, tuple(_tv(x) for x in v.domain.values), _tv(v.initial_value))
+                                           for n, v in dcop.variables.items())),
+        "constraints-on-every-assignment": _guard(lambda: sorted((n,) + constraint(c) for n, c in dcop.constraints.items())),
+        "agents-capacity-routes-and-hosting-costs": _guard(lambda: sorted(
+            (n,) + o for n, a in dcop.agents.items() for o in _observe_agents([a], others, comps))),
+    }
+
+
+def _identity_dcop(dcop):
+    """the objects a DCOP is made of, in the order the caller put them in"""
+    return _guard(lambda: tuple(tuple((k, id(v)) for k, v in d.items())
+                                for d in (dcop.domains, dcop.variables, dcop.constraints, dcop.agents)))
+
+
+def _tables(tables):
+    return [(n, sorted(r.items()), sorted(h.items())) for n, r, h in tables]
+
+
+def _shared_tables_probe(env, spec):
+    """frame of AgentDef.route / AgentDef.hosting_cost: agent definitions are commonly built on one route table and
+    one hosting-cost table (the same dict objects for all agents, different defaults).  Asking one agent must not
+    change what the next one answers, nor the tables.  Oracle: the tables as written here."""
+    from pydcop.dcop.objects import AgentDef
+    comps = [v[0] for v in spec["variables"]] + [c[0] for c in spec["constraints"]] + ["unknown_comp"]
+    names = ["a10", "a2", "b1"]
+    routes = {"a2": 3, "b1": 0}
+    hc = {comps[0]: 7, comps[-2]: 0}
+    r0, h0 = dict(routes), dict(hc)
+    defaults = {"a10": (2, 4.5), "a2": (5.5, 0), "b1": (0, 6)}      # name -> default route, default hosting cost
+    agts = {n: AgentDef(n, default_route=defaults[n][0], routes=routes, default_hosting_cost=defaults[n][1], hosting_costs=hc)
+            for n in names}
+    bad = []
+    for rnd in (1, 2):                                   # every question twice, agents interleaved
+        for c in comps:
+            for n in (names if rnd == 1 else names[::-1]):
+                got = env.call(agts[n].hosting_cost, c)
+                exp = h0.get(c, defaults[n][1])
+                if isinstance(got, Raised) or not _num_eq(got, exp):
+                    bad.append(("hosting_cost", rnd, n, c, exp, got))
+        for o in names + ["unknown_agent"]:
+            for n in (names if rnd == 1 else names[::-1]):
+                got = env.call(agts[n].route, o)
+                exp = 0 if o == n else r0.get(o, defaults[n][0])
+                if isinstance(got, Raised) or not _num_eq(got, exp):
+                    bad.append(("route", rnd, n, o, exp, got))
+    env.prove("yaml.frame.agents-built-on-the-same-tables-each-answer-from-the-tables-and-their-own-defaults", not bad,
+              detail=lambda: bad[:6])
+    env.prove("yaml.frame.tables-shared-by-several-agents-unchanged-by-route-and-hosting_cost", routes == r0 and hc == h0,
+              detail=lambda: (r0, routes, h0, hc))
+
+
 # ------------------------------------------------------------------ the C14 harness
 
 def _choose_spec(env):
@@ -470,8 +573,20 @@ def h_yaml_roundtrip(env):
         way = _random.Random(spec["name"]).choice(list(p["ways"]))
     else:
         way = env.choice("read_back", p["ways"])
-    dcop, dcop_noagents, agents = _build(spec)
+    tables = []
+    dcop, dcop_noagents, agents = _build(spec, tables)
     tag = p.get("tag", "")
+    # frame: everything the functions under contract are handed, observed before the first call
+    f_others = [a["name"] for a in spec["agents"]] + ["unknown_agent"]
+    f_comps = [v[0] for v in spec["variables"]] + [c[0] for c in spec["constraints"]] + ["unknown_comp"]
+    f_tables = _tables(tables)          # first: asking the agents is a use of these tables
+    f_obs = {"": _observe_dcop(dcop, f_others, f_comps)}
+    f_ids = {"": _identity_dcop(dcop)}
+    f_agents = list(agents)
+    f_files = {}
+    if way == "agents-file":
+        f_obs["[dcop-without-agents]"] = _observe_dcop(dcop_noagents, f_others, f_comps)
+        f_ids["[dcop-without-agents]"] = _identity_dcop(dcop_noagents)
     text = env.call(Y.dcop_yaml, dcop)
     if isinstance(text, Raised):
         env.prove("yaml.dump.no-raise" + tag, False, detail=lambda: (spec, text.tb))
@@ -484,7 +599,7 @@ def h_yaml_roundtrip(env):
         if isinstance(text_noagents, Raised) or isinstance(text_agents, Raised):
             env.prove("yaml.dump.no-raise" + tag, False, detail=lambda: (spec, text_noagents, text_agents))
             return
-    loaded = _read_back(env, Y, way, text, text_noagents, text_agents)
+    loaded = _read_back(env, Y, way, text, text_noagents, text_agents, frame=f_files)
     kind = "from-string" if way == "string" else ("from-one-file" if way in _FILE_WAYS_1 else "from-several-files")
     if isinstance(loaded, Raised):
         env.prove("yaml.load.%s.no-raise%s" % (kind, "[filename-given-as-str]" if way == "file-str" else "") + tag, False,
@@ -493,6 +608,49 @@ def h_yaml_roundtrip(env):
     env.cover("post")
     env.cover(kind)
     prove_equivalent(env, dcop, loaded, "yaml", tag=tag)
+
+    # ---- frame obligations (dcop_yaml / yaml_agents / load_dcop_from_file only read what they are given;
+    #      AgentDef.route / hosting_cost only read the tables the agent definition was built on)
+    # the same DCOP dumped a second time is the same problem: the same text, or a text that loads to a DCOP a
+    # caller cannot tell from the original as it was before the first dump
+    # (a dump costs a third of a path: made on the paths that read back from the string, where agents vary)
+    if way == "string" and p["focus"] not in ("constraints", "domains"):
+        text2 = env.call(Y.dcop_yaml, dcop)
+        if isinstance(text2, Raised):
+            env.prove("yaml.frame.second-dump-of-the-same-dcop-does-not-raise", False, detail=lambda: (spec, text2.tb))
+        elif text2 != text:
+            again = env.call(Y.load_dcop, text2)
+            obs2 = None if isinstance(again, Raised) else _observe_dcop(again, f_others, f_comps)
+            env.prove("yaml.frame.second-dump-of-the-same-dcop-describes-the-same-problem", obs2 == f_obs[""],
+                      detail=lambda: dict(first=text, second=text2, loaded=again if isinstance(again, Raised) else obs2))
+        else:
+            env.prove("yaml.frame.second-dump-of-the-same-dcop-describes-the-same-problem", True)
+    for which, d in (("", dcop), ("[dcop-without-agents]", dcop_noagents)):
+        if which not in f_obs:
+            continue
+        env.prove("yaml.frame.dumped-dcop-holds-the-same-objects-in-the-same-order" + which, _identity_dcop(d) == f_ids[which],
+                  detail=lambda: (spec, which))
+        after = _observe_dcop(d, f_others, f_comps)
+        for section, b in f_obs[which].items():
+            a = after[section]
+            env.prove("yaml.frame.dumped-dcop-unchanged.%s%s" % (section, which), a == b, detail=lambda: (section, "before", b, "after", a))
+    env.prove("yaml.frame.list-of-agents-given-to-yaml_agents-unchanged",
+              len(agents) == len(f_agents) and all(x is y for x, y in zip(agents, f_agents)),
+              detail=lambda: (f_agents, agents))
+    now_tables = _guard(lambda: _tables(tables))
+    env.prove("yaml.frame.route-and-hosting-cost-tables-handed-to-agentdef-unchanged", now_tables == f_tables,
+              detail=lambda: ("before", f_tables, "after", now_tables))
+    if "before" in f_files:
+        env.prove("yaml.frame.file-names-given-to-load_dcop_from_file-unchanged", f_files["after"] == f_files["before"],
+                  detail=lambda: f_files)
+    # the loaded agents asked a second time (the first time: prove_equivalent) answer like the original did
+    # before anything was called
+    if hasattr(loaded, "agents") and set(loaded.agents) == set(dcop.agents):
+        again = _guard(lambda: sorted((n,) + o for n, a in loaded.agents.items() for o in _observe_agents([a], f_others, f_comps)))
+        exp = f_obs[""]["agents-capacity-routes-and-hosting-costs"]
+        env.prove("yaml.frame.loaded-agents-asked-a-second-time-answer-the-same" + tag, again == exp, detail=lambda: (exp, again))
+    if p["focus"] == "agents":
+        _shared_tables_probe(env, spec)
 
 
 _WAYS_CORE = ["string", "file-list", "agents-file"]
@@ -564,8 +722,10 @@ class _RecRandom:
 
 
 @contextlib.contextmanager
-def _observed(module, names, store, replace=None):
-    """wrap module-level functions so that their results are recorded (behaviour unchanged)"""
+def _observed(module, names, store, replace=None, snap=None, snaps=None):
+    """wrap module-level functions so that their results are recorded (behaviour unchanged).
+    snap / snaps: snaps[name] receives snap(result) taken when the function returns (frame obligations: the
+    result is later handed to other functions of the module, which only read it)"""
     saved = {}
     try:
         for n in names:
@@ -575,6 +735,8 @@ def _observed(module, names, store, replace=None):
                 def w(*a, **kw):
                     r = f(*a, **kw)
                     store.setdefault(key, []).append((a, r))
+                    if snap is not None and snaps is not None:
+                        snaps.setdefault(key, []).append(snap(r))
                     return r
                 return w
             setattr(module, n, mk(saved[n], n))
@@ -587,21 +749,37 @@ def _observed(module, names, store, replace=None):
             setattr(module, n, v)
 
 
-def _run_command(env, fn, ns, out):
-    """call a generator command; returns (Raised | None, produced text, extra files {suffix: text})"""
+def _args_seen(ns):
+    """the parsed arguments as their owner sees them (lists by content)"""
+    return {k: (list(v) if isinstance(v, list) else v) for k, v in vars(ns).items()}
+
+
+def _prove_args_unchanged(env, label, frame, args):
+    """frame of the command functions: `args` (an argparse Namespace, mutable; its lists too) belongs to the caller"""
+    env.prove(label, "after" in frame and frame["after"] == frame["before"], detail=lambda: (args, frame))
+
+
+def _run_command(env, fn, ns, out, frame=None):
+    """call a generator command; returns (Raised | None, produced text, extra files {suffix: text}).
+    frame: a dict that receives the arguments as they were just before the call and as they are just after"""
     extra = {}
+    frame = {} if frame is None else frame
     if out == "stdout":
         ns.output = None
         buf = io.StringIO()
+        frame["before"] = _args_seen(ns)
         with contextlib.redirect_stdout(buf):
             r = env.call(fn, ns)
+        frame["after"] = _args_seen(ns)
         return (r if isinstance(r, Raised) else None), buf.getvalue(), extra
     d = _tmpdir()
     try:
         ns.output = os.path.join(d, "gen_out.yaml")
         buf = io.StringIO()
+        frame["before"] = _args_seen(ns)
         with contextlib.redirect_stdout(buf):
             r = env.call(fn, ns)
+        frame["after"] = _args_seen(ns)
         text = None
         if os.path.exists(ns.output):
             with open(ns.output, encoding="utf-8") as f:
@@ -647,9 +825,13 @@ def h_graphcoloring(env):
     store = {}
     rec = _RecRandom(_random)
     _random.seed(seed)
+    f_args, f_graphs = {}, {}
+
+    def graph_seen(r):      # the generated graph when it is returned (frame); dcop_yaml's result is a text
+        return (sorted(r.nodes), sorted(tuple(sorted(e)) for e in r.edges)) if hasattr(r, "edges") else None
     with _observed(G, ["generate_random_graph", "generate_scalefree_graph", "generate_grid_graph", "dcop_yaml"], store,
-                   replace={"random": rec}):
-        err, text, _ = _run_command(env, G.generate, ns, out)
+                   replace={"random": rec}, snap=graph_seen, snaps=f_graphs):
+        err, text, _ = _run_command(env, G.generate, ns, out, frame=f_args)
     args = dict(vars(ns), seed=seed, output=out)
     if err is not None:
         env.prove("graphcoloring.no-raise-on-valid-arguments", False, detail=lambda: (args, err.tb))
@@ -730,6 +912,12 @@ def h_graphcoloring(env):
             env.prove("graphcoloring.output.is-a-loadable-dcop-yaml", False, detail=lambda: (args, loaded.tb, text[:600]))
             return
         prove_equivalent(env, dcop, loaded, "graphcoloring.output", extra_computations=())
+    # ---- frame: the command does not write into its arguments; generate_hard_constraints / generate_soft_constraints
+    #      only read the graph they are given (it is compared to the constraints above: it must still be the generated one)
+    _prove_args_unchanged(env, "graphcoloring.frame.args-unchanged", f_args, args)
+    seen = [x for key in f_graphs if key != "dcop_yaml" for x in f_graphs[key]]
+    env.prove("graphcoloring.frame.generated-graph-unchanged-by-the-generation-of-variables-and-constraints",
+              len(seen) == 1 and _guard(lambda: graph_seen(graph)) == seen[0], detail=lambda: (args, seen, graph_seen(graph)))
 
 
 def _gc_shapes(tier):
@@ -888,8 +1076,9 @@ def h_ising_command(env):
     args = dict(vars(ns), seed=seed, output=out)
     store = {}
     _random.seed(seed)
+    f_args = {}
     with _observed(I, ["generate_ising"], store):
-        err, text, extra = _run_command(env, I.generate, ns, out)
+        err, text, extra = _run_command(env, I.generate, ns, out, frame=f_args)
     if err is not None:
         env.prove("ising.command.no-raise-on-valid-arguments", False, detail=lambda: (args, err.tb))
         return
@@ -906,6 +1095,7 @@ def h_ising_command(env):
         env.prove("ising.command.output.is-a-loadable-dcop-yaml[%s]" % out, False, detail=lambda: (args, loaded.tb, text[:400]))
         return
     prove_equivalent(env, dcop, loaded, "ising.command.output", extra_computations=())
+    _prove_args_unchanged(env, "ising.command.frame.args-unchanged", f_args, args)      # frame
     vars_, cons = list(dcop.variables), list(dcop.constraints)
     if out == "file":
         docs = {}
@@ -986,9 +1176,10 @@ def h_scenario(env):
         env.assume(False)   # not enough agents: invalid arguments
     delay = env.choice("delay", p.get("delays", [10, 0]))
     seed = env.choice("seed", p["seeds"])
-    agents_form = env.choice("agents_given_as", ["list", "dict-keys"])
+    agents_form = env.choice("agents_given_as", ["list", "dict-keys", "set"])
     agents = _AGENT_NAMES[:n]
-    given = list(agents) if agents_form == "list" else {a: None for a in agents}.keys()
+    holder = {a: None for a in agents}
+    given = list(agents) if agents_form == "list" else (holder.keys() if agents_form == "dict-keys" else set(agents))
     args = dict(agents=agents, evts_count=evts, actions_count=acts, delay=delay, seed=seed)
     _random.seed(seed)
     sc = env.call(S.generate_scenario, evts, acts, delay, 20, 5, given)
@@ -1003,6 +1194,20 @@ def h_scenario(env):
     if isinstance(events, Raised):
         return
     _removals(env, "scenario", events, evts, acts, agents, args)
+    # ---- frame: `agents` (a list, the keys of a dict or a set) belongs to the caller, who uses it again
+    env.prove("scenario.frame.agents-argument-unchanged",
+              (list(given) == agents) if agents_form != "set" else (given == set(agents)), detail=lambda: (args, agents_form, given))
+    def seen(evs):
+        return [(e.id, e.delay, [(a.type, sorted(a.args.items())) for a in (e.actions or [])]) for e in evs]
+    first = seen(events)
+    _random.seed(seed)
+    sc2 = env.call(S.generate_scenario, evts, acts, delay, 20, 5, given)
+    events2 = sc2 if isinstance(sc2, Raised) else env.call(lambda: list(sc2.events))
+    env.prove("scenario.frame.second-call-with-the-same-agents-returns-a-scenario", not isinstance(events2, Raised), detail=lambda: (args, events2))
+    if not isinstance(events2, Raised):
+        _removals(env, "scenario.frame.second-call-with-the-same-agents", events2, evts, acts, agents, args)
+    env.prove("scenario.frame.first-scenario-unchanged-by-the-second-call", _guard(lambda: seen(sc.events)) == first,
+              detail=lambda: (args, first, _guard(lambda: seen(sc.events))))
 
 
 Contract(
@@ -1054,7 +1259,8 @@ def h_scenario_command(env):
                        dcop_files_end=files if files_as == "positional" else [], output=None)
         args = dict(agents=agents, evts_count=evts, actions_count=acts, files=files_as, seed=seed, output=out)
         _random.seed(seed)
-        err, text, _ = _run_command(env, S.generate, ns, out)
+        f_args = {}
+        err, text, _ = _run_command(env, S.generate, ns, out, frame=f_args)
     finally:
         shutil.rmtree(d, ignore_errors=True)
     if err is not None:
@@ -1069,6 +1275,8 @@ def h_scenario_command(env):
         env.prove("scenario.command.output.is-a-loadable-scenario-yaml[%s]" % out, False, detail=lambda: (args, text[:300], sc.tb))
         return
     _removals(env, "scenario.command.output[%s]" % out, list(sc.events), evts, acts, agents, args)
+    # frame: the arguments (the lists of file names included) are the caller's
+    _prove_args_unchanged(env, "scenario.command.frame.args-unchanged", f_args, args)
 
 
 Contract(
